@@ -1184,6 +1184,22 @@ def initial_route(rn, a, sb, sim):
     return None
 
 
+_ROAD_TABLES: dict = {}
+
+
+def _road_table(rn):
+    """street graphs only: link id -> (cell of its start junction, cell of its end junction, declared length km, speed km/h),
+    read once from the network's static link table (None for the straight-line network, where every link IS its geometry)"""
+    lh = getattr(rn, "link_helper", None)
+    if lh is None:
+        return None
+    t = _ROAD_TABLES.get(id(rn))
+    if t is None or t[0] is not rn:
+        t = (rn, {lid: (l.start, l.end, float(l.distance_km), float(l.speed_kmph)) for lid, l in lh.links.items()})
+        _ROAD_TABLES[id(rn)] = t
+    return t[1]
+
+
 def c06_vehicle_step(rn, a, b, move_events, step_s: float) -> List[Tuple[str, tuple, str]]:
     """a, b: the vehicle before / after one step in which no instruction changed its activity.
     returns [(clause, discriminators, message)]"""
@@ -1290,13 +1306,45 @@ def c06_vehicle_step(rn, a, b, move_events, step_s: float) -> List[Tuple[str, tu
         sp = _gt_speed(rn, l.link_id, l.speed_kmph)
         slowest = min(slowest, sp)
         g = _gc_km(p0, p1)
+        tb = _road_table(rn)
+        if tb is not None and l.link_id in tb and _gc_km(tb[l.link_id][0], tb[l.link_id][1]) > 0:
+            # a street's length is generally not its straight line: the cut part has the same share of the declared length
+            n0, n1, declared, _sp = tb[l.link_id]
+            g = declared * max(0.0, _gc_km(n0, p1) - _gc_km(n0, p0)) / _gc_km(n0, n1)
         t += g / sp * 3600.0
         dist += g
     slack = 0.001 / max(min(slowest, 1000.0), 1e-9) * 3600.0 if slowest < 1000.0 else 0.0
     if t > step_s + slack + 1e-6:
         out.append(("too_fast", (na,), f"vehicle {vid} drove links worth {t:.2f} s of travel time in a {step_s} s step"))
-    if abs(dodo - dist) > 1e-9:
+    # whole links: exactly their length; a link cut by the end of the step: the cut is a cell (about a metre across), the length
+    # driven on it is time x speed
+    if abs(dodo - dist) > (1e-9 if piece is None else 0.0015):
         out.append(("odometer_vs_route", (na,), f"vehicle {vid}: odometer grew by {dodo}, the driven part of the route measures {dist}"))
+    # the same two clauses against the ROAD itself (street graphs): every driven piece is measured as the share of its street's
+    # declared length that lies between its two cells -- not by the length the library's route object carries for it
+    table = _road_table(rn)
+    if table is not None:
+        pieces = [(l.link_id, l.start, l.end) for l in whole if l.start != l.end]
+        if piece is not None:
+            pieces.append((piece[0].link_id, piece[1], piece[2]))
+        road_km, need_s, known = 0.0, 0.0, True
+        for lid, c0, c1 in pieces:
+            if lid not in table:
+                known = False
+                break
+            n0, n1, declared, sp = table[lid]
+            full = _gc_km(n0, n1)
+            if full <= 0:
+                continue
+            share = max(0.0, (_gc_km(n0, c1) - _gc_km(n0, c0)) / full)
+            road_km += declared * share
+            need_s += declared * share / sp * 3600.0
+        if known and pieces:
+            cell_tol = 0.003 * len(pieces)  # a cell is ~1 m across
+            if abs(dodo - road_km) > cell_tol + 0.002 * road_km:
+                out.append(("odometer_vs_road", (na, "over_counts" if dodo > road_km else "under_counts"), f"vehicle {vid}: odometer grew by {dodo:.4f} km, the stretch of road it covered ({[p[0] for p in pieces]}) measures {road_km:.4f} km"))
+            if need_s > step_s + 1.0 * len(pieces) + cell_tol / max(min(slowest, 1000.0), 1e-9) * 3600.0:
+                out.append(("too_fast_for_the_road", (na,), f"vehicle {vid} covered {road_km:.4f} km of road ({[p[0] for p in pieces]}), worth {need_s:.1f} s at the streets' speeds, in one {step_s} s step"))
     # progress
     if nb != "OutOfService" and nominal_seconds(rn, Rp) >= nominal_seconds(rn, R) - 1e-9:
         out.append(("no_progress", (na,), f"vehicle {vid}: remaining nominal travel time {nominal_seconds(rn, R):.3f} s -> {nominal_seconds(rn, Rp):.3f} s"))
